@@ -127,6 +127,8 @@ __CPROVER_assigns(nv_id_counter, nv_appended, nv_consulted, nv_mon_round, nv_mon
 __CPROVER_ensures(nv_thrown || (nv_consulted == nv_appended + 1 || nv_consulted == nv_appended)) \
 /* the returned fold model keeps exactly optimum.round() learners (before merging), a round the monitor has seen, and \
  * optimum.round() + 1 rows of statistics */ \
+/* (a bound first: the contract is also ASSUMED, on a havocked state, by the callback target -- `round + 1` must not wrap there) */ \
+__CPROVER_ensures(nv_thrown || nv_mon_round <= 100000000) \
 __CPROVER_ensures(nv_thrown || (nv_kept == nv_mon_round && nv_mon_round + 1 <= nv_consulted && NV_RET._0.m_wlearners.size <= nv_kept)) \
 __CPROVER_ensures(nv_thrown || (NV_RET._0.m_statistics.rows == (int64_t)nv_mon_round + 1 && NV_RET._0.m_statistics.rows <= nv_rows)) \
 /* the returned per-sample values are the monitor's snapshot -- the `values` of the round it reports -- selected by the \
